@@ -266,6 +266,8 @@ func classifyRaw(kind string, err error) int {
 	switch {
 	case isAddrErr(err):
 		return 10
+	case strings.HasPrefix(err.Error(), "invalid denom") && kind == "create":
+		return 7 // GetTokenDenom: sdk.ValidateDenom of the constructed denom (ValidateBasic normally sees it first)
 	case strings.HasPrefix(err.Error(), "invalid denom"):
 		return 4 // DeconstructDenom: sdk.ValidateDenom's own error (ValidateBasic normally sees it first)
 	case kind == "setmeta":
